@@ -140,6 +140,12 @@ def _changes(node) -> list[tuple[str, dict[str, Any], bool]]:
         out.append(("items-empty", {"items": ()}, True))
     if cls == "VMany":
         out.append(("items", {"items": (VLeaf(v=505),)}, True))
+    if cls in ("VMixed", "VInh") and type(node.first).__name__ == "VReq":
+        # same content and same own origin as the current child, another origin one level further down:
+        # the new parent has the id pre-image of the old one without being == to it
+        from models.zoo import VReq, origin
+
+        out.append(("first-same-content-origin-differs-below", {"first": VReq(child=dataclasses.replace(node.first.child, origin=origin("b")))}, True))
     if cls in ("VMixed", "VInh"):
         out.append(("first-equal-copy", {"first": node.first.duplicate()}, True))
         out.append(("items-equal-copies", {"items": tuple(c.duplicate() for c in node.items)}, True))
@@ -155,6 +161,7 @@ REPLACE_BASES = [
     R("VMixed", {"v": 1}, first=R("VLeaf", {"v": 2}), items=(R("VLeaf", {"v": 3}), R("VSubLeaf", {"v": 4})), one=None),
     R("VInh", {"v": 1}, "b", first=R("VLeaf", {"v": 2}), items=(), one=R("VLeaf", {"v": 5}), extra=R("VLeaf", {"v": 6})),
     R("VMany", items=(R("VLeaf", {"v": 7}), R("VLeaf", {"v": 7}, "a"))), R("VNonInit", {"v": 3}),
+    R("VMixed", {"v": 1}, first=R("VReq", child=R("VLeaf", {"v": 2})), items=(), one=None),
 ]
 
 
@@ -165,12 +172,16 @@ def replace_harness(e):
     reset_all()
     bno = e.choice(len(REPLACE_BASES), "base")
     recipe = REPLACE_BASES[bno]
-    twins = e.flag("twin_registered")
+    n_twins = e.pick([0, 1, 2], "twins_registered")
+    twins = n_twins > 0
     twin_first = e.flag("twin_created_first") if twins else False
-    keep = [build(recipe)] if (twins and twin_first) else []
+    keep = [build(recipe) for _ in range(n_twins)] if (twins and twin_first) else []
     node = build(recipe)
     if twins and not twin_first:
-        keep = [build(recipe)]
+        keep = [build(recipe) for _ in range(n_twins)]
+    if twins and twin_first and e.flag("lowest_twin_detached_before_the_replace"):
+        # frees the lowest id of the family while a higher one stays in use
+        keep[0].detach_self()
     state = e.pick(["registered", "detached", "detached-then-twin-built"], "original_state")
     if state != "registered":
         node.detach_self()
@@ -185,7 +196,7 @@ def replace_harness(e):
     op = e.pick(["ASTNode.replace", "dataclasses.replace"], "operation")
     was_registered = ASTNode.get_any(node.id) is node
     old_id = node.id
-    scenario = {"base": describe(recipe), "twin": twins, "twin_first": twin_first, "original": state, "change": label, "operation": op}
+    scenario = {"base": describe(recipe), "twins": n_twins, "twin_first": twin_first, "lowest_twin_detached": bool(keep and ASTNode.get_any(keep[0].id) is not keep[0]), "original": state, "change": label, "operation": op}
     new = node.replace(**kw) if op == "ASTNode.replace" else dataclasses.replace(node, **kw)
     if type(new) is not type(node) or new is node:
         e.fail("replace-result-not-a-new-node-of-the-same-class", scenario=scenario)
@@ -231,7 +242,7 @@ def replace_harness(e):
     if state == "detached-then-twin-built" and op == "ASTNode.replace":
         pass
     del keep
-    e.distinct((bno, twins, twin_first, state, label, op))
+    e.distinct((bno, n_twins, twin_first, scenario["lowest_twin_detached"], state, label, op))
     return scenario
 
 
